@@ -158,3 +158,22 @@ PROPS["C10"] = {
         "a static tag equal to a tag removed from that metric is not added back (the statement's 'not itself being removed from that metric')",
     ],
 }
+
+PROPS["C18"] = {
+    "pkg": "c18", "level": "exploration",
+    "jobs": {
+        "quick": [
+            {"name": "ticker", "run": "^TestAlignedTickerValues$", "checks": 2400, "shards": 8},
+            {"name": "flusher", "run": "^TestAlignedFlusher$", "checks": 2400, "shards": 8},
+        ],
+        "thorough": [
+            {"name": "ticker", "run": "^TestAlignedTickerValues$", "checks": 160000, "shards": 8, "timeout": 1700},
+            {"name": "flusher", "run": "^TestAlignedFlusher$", "checks": 160000, "shards": 8, "timeout": 1700},
+        ],
+    },
+    "assumptions": [
+        "'multiple of the interval' is counted from Go's zero time, as time.Truncate documents; the oracle recomputes it with big integers",
+        "the property is about the arithmetic of tick values and of the clock reading under exact stepping; real-time scheduling jitter is out of scope (a real ticker fires microseconds after the boundary and the tick value is rounded down to it)",
+        "under jumps and late consumers ticks may be dropped (non-blocking send): alignment and strict increase are still required, 'clock reads exactly the tick value' only under exact stepping",
+    ],
+}
